@@ -124,6 +124,8 @@ impl Story {
             }
 
             if !func_def.lookahead_safe && self.state_snapshot_at_last_new_line.is_some() {
+                #[cfg(feature = "verif-hooks")]
+                crate::verif::probe("unsafe_external_deferred");
                 self.saw_lookahead_unsafe_function_after_new_line = true;
                 return Ok(());
             }
